@@ -290,7 +290,47 @@ func (fx *FnCtx) execFunction(fn *ssa.Function, args []Val, bindings []Val, st *
 	return out, vals
 }
 
+type rangeIdx struct {
+	cell  *ssa.Alloc
+	bound ssa.Value
+}
+
+// rangeIndexInfo recognises the "rangeindex.loop" shape produced by go/ssa
+// for range over slices, arrays and integers: header increments the hidden
+// index cell and compares it with a bound computed before the loop.
+func (fr *Frame) rangeIndexInfo(l *loop) *rangeIdx {
+	if l.header.Comment != "rangeindex.loop" {
+		return nil
+	}
+	var ri rangeIdx
+	for _, in := range l.header.Instrs {
+		switch x := in.(type) {
+		case *ssa.Store:
+			if a, ok := x.Addr.(*ssa.Alloc); ok && a.Comment == "rangeindex" {
+				ri.cell = a
+			}
+		case *ssa.BinOp:
+			if x.Op == token.LSS {
+				ri.bound = x.Y
+			}
+		}
+	}
+	if ri.cell == nil || ri.bound == nil {
+		return nil
+	}
+	// the bound must be defined outside the loop
+	if in, ok := ri.bound.(ssa.Instruction); ok && l.body[in.Block()] {
+		return nil
+	}
+	return &ri
+}
+
+func (fr *Frame) boundTerm(ri *rangeIdx) T {
+	return fr.val(ri.bound).t()
+}
+
 type loopHead struct {
+	rangeIdx *rangeIdx
 	l        *loop
 	st       *State // state right after havoc + assume (for variant)
 	variant  T
@@ -313,8 +353,19 @@ func (fr *Frame) enterLoop(l *loop, in *State, heads map[*ssa.BasicBlock]*loopHe
 	// establishment
 	if ls != nil {
 		for i, inv := range ls.Invariants {
+			if !fx.eng.useClause(inv) {
+				continue
+			}
 			t := fr.evalClause(inv, in, nil, nil)
 			fx.oblige("invariant", fmt.Sprintf("%s/inv_established/%s", name, clauseName(inv, i)), in, t, l.header.Instrs[0].Pos(), inv.Src)
+		}
+	}
+	if ri := fr.rangeIndexInfo(l); ri != nil {
+		if c := fr.cells[ri.cell]; c != nil {
+			if v, ok := in.cells[c]; ok {
+				fx.oblige("invariant", name+"/inv_established/auto_rangeindex", in, and(le("(- 1)", v.t()), or(lt(v.t(), fr.boundTerm(ri)), eq(v.t(), "(- 1)"))), l.header.Instrs[0].Pos(), "-1 <= rangeindex < bound")
+				fx.assume(in.guard, le("0", fr.boundTerm(ri)))
+			}
 		}
 	}
 	// automatic invariants: type ranges and iterator bounds are re-assumed below
@@ -360,10 +411,28 @@ func (fr *Frame) enterLoop(l *loop, in *State, heads map[*ssa.BasicBlock]*loopHe
 		st.alloc = na
 	}
 	h.st = st
+	// automatic invariant of compiler-generated range-index loops:
+	// -1 <= rangeindex < bound (the bound is a register defined before the loop)
+	if ri := fr.rangeIndexInfo(l); ri != nil {
+		h.rangeIdx = ri
+		if c := fr.cells[ri.cell]; c != nil {
+			if v, ok := st.cells[c]; ok {
+				fx.assume(st.guard, and(le("(- 1)", v.t()), lt(v.t(), fr.boundTerm(ri))))
+			}
+		}
+	}
 	if ls != nil {
 		for _, inv := range ls.Invariants {
+			if !fx.eng.useClause(inv) {
+				continue
+			}
 			t := fr.evalClause(inv, st, nil, nil)
 			fx.assume(st.guard, t)
+		}
+		for _, ap := range ls.HeadApplies {
+			call := ap.E.(*ECall)
+			env := fr.envFor(st, fr.entry, nil)
+			fx.assume(st.guard, fx.eng.lemmaInstance(fx, call.Fn, call.Args, env))
 		}
 		if ls.Decreases != nil {
 			cv := fr.evalExprIn(ls.Decreases.E, st, nil, nil)
@@ -386,9 +455,25 @@ func (fr *Frame) backEdge(h *loopHead, st *State, pos token.Pos) {
 	fx := fr.fx
 	name := fmt.Sprintf("%s/loop%d", fr.path, h.l.ordinal)
 	if h.spec != nil {
+		for _, ap := range h.spec.Applies {
+			call := ap.E.(*ECall)
+			env := fr.envFor(st, fr.entry, nil)
+			env.prev = h.st
+			fx.assume(st.guard, fx.eng.lemmaInstance(fx, call.Fn, call.Args, env))
+		}
 		for i, inv := range h.spec.Invariants {
+			if !fx.eng.useClause(inv) {
+				continue
+			}
 			t := fr.evalClause(inv, st, nil, nil)
 			fx.oblige("invariant", fmt.Sprintf("%s/inv_preserved/%s", name, clauseName(inv, i)), st, t, pos, inv.Src)
+		}
+	}
+	if h.rangeIdx != nil {
+		if c := fr.cells[h.rangeIdx.cell]; c != nil {
+			if v, ok := st.cells[c]; ok {
+				fx.oblige("invariant", name+"/inv_preserved/auto_rangeindex", st, and(le("(- 1)", v.t()), lt(v.t(), fr.boundTerm(h.rangeIdx))), pos, "-1 <= rangeindex < bound")
+			}
 		}
 	}
 	if h.hasVar {
@@ -400,6 +485,9 @@ func (fr *Frame) backEdge(h *loopHead, st *State, pos token.Pos) {
 }
 
 func (fr *Frame) loopIsRange(l *loop) bool {
+	if fr.rangeIndexInfo(l) != nil {
+		return true
+	}
 	for _, in := range l.header.Instrs {
 		if _, ok := in.(*ssa.Next); ok {
 			return true
@@ -1158,13 +1246,23 @@ func (fr *Frame) execTypeAssert(x *ssa.TypeAssert, st *State) {
 	iv := fr.val(x.X)
 	var ok T
 	var val Val
-	if types.IsInterface(x.AssertedType) {
+	if types.IsInterface(x.AssertedType) && types.AssignableTo(x.X.Type(), x.AssertedType) {
+		// asserting a value to (a supertype of) its own static interface
+		// type only checks for nil
+		ok = not(eq(iv.ifTyp(), "0"))
+		val = iv
+		val.sh = shapeOf(x.AssertedType)
+	} else if types.IsInterface(x.AssertedType) {
 		ok = fr.implements(iv, x.AssertedType, st)
 		val = iv
 		val.sh = shapeOf(x.AssertedType)
 	} else {
 		ok = eq(iv.ifTyp(), num(int64(fx.eng.tids.id(x.AssertedType))))
 		val = fr.unbox(st, iv, x.AssertedType)
+		if _, isPtr := x.AssertedType.Underlying().(*types.Pointer); isPtr && !strings.HasPrefix(iv.ifBox(), "|ref_") {
+			fx.assume(st.guard, imp(ok, not(eq(iv.ifBox(), "0"))))
+			fx.noteAssumption("interface values do not hold typed nil pointers")
+		}
 	}
 	if x.CommaOk {
 		okv := mkBool(shapeOf(types.Typ[types.Bool]), fx.defineBool("taok", ok))
